@@ -50,11 +50,17 @@ class PartialOrder(TemporalConstraints):
 
 
 class TotalOrder(PartialOrder):
-    """A purely qualitative set of constraints that define a total order on its elements."""
+    """A purely qualitative set of constraints that define a total order on its elements.
 
-    def __init__(self, order: List[str]):
+    If the `precedences` from which the total order was derived are given, they are kept as they are;
+    otherwise the precedences are the ones between consecutive elements of the `order`."""
+
+    def __init__(
+        self, order: List[str], precedences: Optional[List[Tuple[str, str]]] = None
+    ):
         self.order = order
-        precedences = [(order[i - 1], order[i]) for i in range(1, len(order))]
+        if precedences is None:
+            precedences = [(order[i - 1], order[i]) for i in range(1, len(order))]
         super().__init__(precedences)
 
     def __repr__(self):
@@ -97,7 +103,7 @@ def ordering(
     else:
         to = _build_total_order(set(task_ids), precedences)
         if to is not None:
-            return TotalOrder(to)
+            return TotalOrder(to, precedences)
         else:
             return PartialOrder(precedences)
 
